@@ -230,6 +230,52 @@ static_assert(std::is_trivially_copy_constructible_v<Stamped> && std::is_trivial
               std::is_trivially_destructible_v<Stamped> && !std::is_trivially_copy_assignable_v<Stamped> &&
               !std::is_trivially_move_assignable_v<Stamped> && std::is_move_assignable_v<Stamped>);
 
+// Asymmetric assignment: the library keeps one table of bytewise-assignable field runs for copy assignment
+// (is_trivially_copy_assignable) and one for move assignment (is_trivially_move_assignable). MvStamped has a trivial copy
+// assignment and a user-provided move assignment, CpStamped the reverse; both leave the same kind of stamp as Stamped.
+// A move (copy) through references that changes the value of a MvStamped (CpStamped) must have run its operator.
+struct MvStamped
+{
+    int32_t value;
+    uint32_t stamp;
+    explicit MvStamped(int64_t k) noexcept : value(static_cast<int32_t>(k)), stamp(0) {}
+    MvStamped(const MvStamped&) = default;
+    MvStamped(MvStamped&&) = default;
+    MvStamped& operator=(const MvStamped&) = default;
+    MvStamped& operator=(MvStamped&& o) noexcept
+    {
+        value = o.value;
+        stamp = ++g_stamp_clock;
+        return *this;
+    }
+    friend bool operator==(const MvStamped& a, const MvStamped& b) { return a.value == b.value; }
+    friend bool operator<(const MvStamped& a, const MvStamped& b) { return a.value < b.value; }
+};
+static_assert(std::is_trivially_copy_assignable_v<MvStamped> && !std::is_trivially_move_assignable_v<MvStamped> &&
+              std::is_trivially_move_constructible_v<MvStamped> && std::is_trivially_destructible_v<MvStamped>);
+struct CpStamped
+{
+    int32_t value;
+    uint32_t stamp;
+    explicit CpStamped(int64_t k) noexcept : value(static_cast<int32_t>(k)), stamp(0) {}
+    CpStamped(const CpStamped&) = default;
+    CpStamped(CpStamped&&) = default;
+    CpStamped& operator=(const CpStamped& o) noexcept
+    {
+        value = o.value;
+        stamp = ++g_stamp_clock;
+        return *this;
+    }
+    CpStamped& operator=(CpStamped&&) = default;
+    friend bool operator==(const CpStamped& a, const CpStamped& b) { return a.value == b.value; }
+    friend bool operator<(const CpStamped& a, const CpStamped& b) { return a.value < b.value; }
+};
+static_assert(!std::is_trivially_copy_assignable_v<CpStamped> && std::is_trivially_move_assignable_v<CpStamped> &&
+              std::is_trivially_copy_constructible_v<CpStamped> && std::is_trivially_destructible_v<CpStamped>);
+// 0: no stamp, 1: every assignment stamps (Stamped), 2: only move assignment stamps, 3: only copy assignment stamps
+template <class T>
+inline constexpr int stamp_kind_v = std::is_same_v<T, Stamped> ? 1 : std::is_same_v<T, MvStamped> ? 2 : std::is_same_v<T, CpStamped> ? 3 : 0;
+
 // User-provided copy construction / copy assignment (they count: a copy is one generation older than its source) but a
 // defaulted, trivial move constructor and a trivial destructor - e.g. a handle whose copy clones a slot. Relocating it
 // bytewise is fine, copying it bytewise skips the clone.
@@ -388,6 +434,18 @@ struct Val<Stamped>
     static int64_t key(const Stamped& v) { return v.value; }
 };
 template <>
+struct Val<MvStamped>
+{
+    static MvStamped make(int64_t k) { return MvStamped(k); }
+    static int64_t key(const MvStamped& v) { return v.value; }
+};
+template <>
+struct Val<CpStamped>
+{
+    static CpStamped make(int64_t k) { return CpStamped(k); }
+    static int64_t key(const CpStamped& v) { return v.value; }
+};
+template <>
 struct Val<std::string>
 {
     // long enough to defeat SSO for most keys, short for some
@@ -412,7 +470,7 @@ struct Val<std::unique_ptr<int>>
 template <class T>
 int64_t norm_key(int64_t k)
 {
-    if constexpr (is_tracked_v<T> || std::is_same_v<T, std::unique_ptr<int>> || std::is_same_v<T, SelfRef> || std::is_same_v<T, Handle> || std::is_same_v<T, Stamped> || std::is_same_v<T, Cloned>)
+    if constexpr (is_tracked_v<T> || std::is_same_v<T, std::unique_ptr<int>> || std::is_same_v<T, SelfRef> || std::is_same_v<T, Handle> || stamp_kind_v<T> != 0 || std::is_same_v<T, Cloned>)
         return k;
     else
     {
